@@ -10,7 +10,7 @@ from ..core import Prop, Violation
 
 MUTATIONS = ["identity", "permute", "number_ulp0", "number_ulp1", "number_far", "number_sign", "number_nonfinite", "string_change",
              "bool_flip", "type_change", "key_rename", "key_case", "member_add", "member_drop", "member_add_casevar", "key_nonletter_flip", "element_add", "element_drop",
-             "element_swap", "raw_change", "independent"]
+             "element_swap", "raw_change", "null_to_nonfinite", "independent"]
 
 
 def nodes_with_paths(jv, path=()):
@@ -118,6 +118,12 @@ def mutate(a, kind, rnd):
         r = n[1]
         choices = [r + b" ", r.swapcase() if r.swapcase() != r else r + b"x", r[:-1] if len(r) > 1 else r + b"0"]
         return set_at(a, p, ["R", rnd.choice(choices)]), True
+    if kind == "null_to_nonfinite":
+        # a number that PRINTS as null (infinity, NaN) is still a number: different type, different value
+        p, n = pick(lambda n: n[0] == "n")
+        if p is None:
+            return a, False
+        return set_at(a, p, ["N", rnd.choice([math.inf, -math.inf, math.nan])]), True
     if kind == "bool_flip":
         p, n = pick(lambda n: n[0] in "tf")
         if p is None:
